@@ -202,6 +202,11 @@ impl ObjectReceiver {
     fn push_to_block2(&mut self, pkt: &alc::AlcPkt, now: std::time::SystemTime) -> Result<()> {
         debug_assert!(self.oti.is_some());
         debug_assert!(self.transfer_length.is_some());
+        if self.state != State::Receiving {
+            // The object writer might have refused the object
+            return Ok(());
+        }
+
         let payload_id = alc::parse_payload_id(pkt, self.oti.as_ref().unwrap())?;
         let nb_blocks = self.blocks.len();
 
